@@ -1060,3 +1060,61 @@ Proof.
     destruct (collect_lines r rest) as [o'|] eqn:E'; [|discriminate]. inversion H; subst.
     destruct (IH _ _ E') as [I1 I2]. rewrite (join_consumes _ _ _ _ E). simpl. rewrite app_length, I2. split; [lia | reflexivity].
 Qed.
+
+(* ================= children with memory (answer i may depend on all lines read) ================= *)
+Definition one_per_line (A : list (list Z) -> list (list Z)) : Prop :=
+  forall ls, forallb (no_delim 10) ls = true -> length (A ls) = length ls /\ forallb (no_delim 10) (A ls) = true.
+
+(* output line k = the answer lines at the positions of line k's pieces, re-joined with line k's withheld runs *)
+Definition rejoined_stream (o : wopts) (A : list (list Z) -> list (list Z)) (ls : list (list Z)) : list (list Z) :=
+  let wl := map (wrap_fn o) ls in
+  map (fun x => interleave (snd x) (map c_str (snd (fst x))))
+      (combine wl (chunks (map (fun w => length (snd w)) wl) (A (concat (map fst wl))))).
+
+Lemma collect_lines_chunks : forall dss answers, length answers = length (concat dss) ->
+  collect_lines dss answers
+  = Some (map (fun x => interleave (snd x) (map c_str (fst x))) (combine dss (chunks (map (@length (list Z)) dss) answers))).
+Proof.
+  induction dss as [|ds r IH]; intros answers Hl; [reflexivity|].
+  simpl concat in Hl. rewrite app_length in Hl.
+  assert (length (firstn (length ds) answers) = length ds) as Hf by (rewrite firstn_length; lia).
+  cbn [collect_lines]. rewrite <- (firstn_skipn (length ds) answers) at 1.
+  rewrite (join_app _ ds _ Hf). rewrite (IH (skipn (length ds) answers)) by (rewrite skipn_length; lia).
+  reflexivity.
+Qed.
+
+Lemma wrap_all_fn o : forall ls, Forall (fun l => utf8_valid l = true /\ short_line l) ls ->
+  forallb (no_delim 10) ls = true ->
+  wrap_all o ls = WAOk (concat (map fst (map (wrap_fn o) ls))) (map snd (map (wrap_fn o) ls)) /\
+  forallb (no_delim 10) (concat (map fst (map (wrap_fn o) ls))) = true /\
+  length (concat (map fst (map (wrap_fn o) ls))) = length (concat (map snd (map (wrap_fn o) ls))).
+Proof.
+  induction ls as [|l r IH]; intros H Hlf; [repeat split|].
+  inversion H as [|? ? [Hv Hs] Hr]; subst. simpl in Hlf. apply andb_true_iff in Hlf. destruct Hlf as [Hl Hlfr].
+  destruct (wrap_lines_correct l o Hv Hs) as (ps & ds & E & Hlen & _ & Hi & _).
+  destruct (IH Hr Hlfr) as (E' & Hn' & Hl').
+  assert (forallb (no_delim 10) ps = true) as Hn by (apply (interleave_no_lf ps ds Hlen); rewrite Hi; exact Hl).
+  assert (wrap_fn o l = (ps, ds)) as Ew by (unfold wrap_fn; rewrite E; reflexivity).
+  cbn [map wrap_all concat]. rewrite Ew, E. cbn [fst snd]. rewrite E'. split; [reflexivity|]. split.
+  - rewrite forallb_app, Hn, Hn'. reflexivity.
+  - rewrite !app_length, Hl', Hlen. reflexivity.
+Qed.
+
+Theorem stream_attribution_stateful_proof o A ls : one_per_line A ->
+  Forall (fun l => utf8_valid l = true /\ short_line l) ls -> forallb (no_delim 10) ls = true ->
+  foldfilter_stream o (answers_child A) fold_feeder_strip_cr fold_collector_strip_cr (unrecords 10 ls)
+  = TOk (unrecords 10 (rejoined_stream o A ls)).
+Proof.
+  intros HA H Hlf. unfold foldfilter_stream, fold_feeder_strip_cr, fold_collector_strip_cr, answers_child.
+  rewrite (records_unrecords 10 ls Hlf).
+  destruct (wrap_all_fn o ls H Hlf) as (E & Hn & Hlen). rewrite E.
+  rewrite (records_unrecords 10 _ Hn).
+  destruct (HA _ Hn) as [HlA HnA].
+  rewrite (records_unrecords 10 _ HnA).
+  rewrite collect_lines_chunks by (rewrite HlA; exact Hlen).
+  unfold rejoined_stream. f_equal. f_equal.
+  set (wl := map (wrap_fn o) ls). rewrite map_map.
+  generalize (A (concat (map fst wl))) as answers. clear.
+  induction wl as [|w r IH]; intros answers; [reflexivity|].
+  simpl. rewrite IH. reflexivity.
+Qed.
